@@ -10,6 +10,10 @@
 //	        ORDER BY/LIMIT, GROUP BY, DISTINCT, UNION, CTE, PARALLEL (hash) joins, ASYNC / SPINASYNC /
 //	        ONCE functions, SETVAR/GETVAR
 //
+//	        ONCE functions, SETVAR/GETVAR, open-ended ranges `(k:end)` in selectors (the private documents differ in
+//	        the length of those arrays; alone = the closed spelling `(k:len)`), SPINASYNC calls with nothing else
+//	        deferred over flat / 2- / 3-dimensional tables (tallied: all completed when Exec returns)
+//
 // on a PRIVATE document (separate documents) or on THE shared document of the round.  After the
 // goroutines have joined, the main goroutine re-executes every job alone on a pristine deep copy of the
 // document and compares (cross-talk); the shared document is compared with its pristine copy.
@@ -43,6 +47,64 @@ type c13Job struct {
 	Ordered bool   `json:"ordered,omitempty"`
 	Tag     string `json:"tag"`
 	Vars    bool   `json:"vars,omitempty"` // query constructed with its own WithVars map
+	// LenKey: the text has an open-ended range whose `end` is the length of the document's top-level array LenKey: the
+	// run alone uses the closed spelling (k:len) of the same range, which must give the same answer
+	LenKey string `json:"lenkey,omitempty"`
+	// Marks: the text calls SPINASYNC.C13MARK($TOK, ...) once per result row ($TOK is replaced by a fresh token per
+	// execution): when Exec returns, every one of these calls has completed (the caller reads the tally without a lock)
+	Marks bool `json:"marks,omitempty"`
+	// Want (with Marks): the number of calls when it is not the number of result rows (the select list with the calls
+	// is a derived table / CTE / union side, whose consumer reshapes a multi-dimensional result): the rows of the sources
+	Want int `json:"want,omitempty"`
+}
+
+// c13MarkRec: tally of the C13MARK calls of ONE execution. The function updates it under mu; the goroutine that called
+// Exec reads n WITHOUT the lock once Exec has returned: by then the library's goroutines have finished (wg.Wait), so the
+// plain read is ordered after every update. A call still running at that point is a data race AND a short tally.
+type c13MarkRec struct {
+	mu sync.Mutex
+	n  int
+}
+
+var c13Marks sync.Map // token (float64) -> *c13MarkRec
+var c13MarkTok atomic.Int64
+var c13UnfinishedMu sync.Mutex
+var c13Unfinished []string
+
+// c13Closed: the closed spelling of an open-ended range for an array of length n
+func c13Closed(text string, n int) string {
+	return strings.ReplaceAll(strings.ReplaceAll(text, ":end)", ":"+strconv.Itoa(n)+")"), "(begin:", "(0:")
+}
+
+func c13Leaves(v any) int {
+	switch t := v.(type) {
+	case []any:
+		n := 0
+		for _, x := range t {
+			n += c13Leaves(x)
+		}
+		return n
+	case map[string]any:
+		return 1
+	}
+	return 0
+}
+
+// c13Ragged gives the arrays that open-ended ranges are taken of (r<nonce>, and xs of every row of rr<nonce>) length n
+func c13Ragged(doc map[string]any, nonce string, n int) {
+	mk := func(off int) []any {
+		a := make([]any, n)
+		for i := range a {
+			a[i] = float64(off + i)
+		}
+		return a
+	}
+	doc["r"+nonce] = mk(0)
+	if rows, ok := doc["rr"+nonce].([]any); ok {
+		for i, row := range rows {
+			row.(map[string]any)["xs"] = mk(10 * (i + 1))
+		}
+	}
 }
 
 type c13Mismatch struct {
@@ -92,6 +154,25 @@ func init() {
 		c13sink.Add(1)
 		return nil, nil
 	})
+	genql.RegisterExternalFunction("c13mark", func(args []any) (any, error) {
+		runtime.Gosched()
+		d := 200 * time.Microsecond
+		if len(args) > 2 {
+			if ms, ok := args[2].(float64); ok {
+				d = time.Duration(ms * float64(time.Millisecond))
+			}
+		}
+		time.Sleep(d)
+		if len(args) > 0 {
+			if v, ok := c13Marks.Load(args[0]); ok {
+				m := v.(*c13MarkRec)
+				m.mu.Lock()
+				m.n++
+				m.mu.Unlock()
+			}
+		}
+		return nil, nil
+	})
 	auxRegistry["c13stress"] = c13Stress
 }
 
@@ -126,8 +207,26 @@ func c13Doc(r *Rand, nonce string) map[string]any {
 	for k := 0; k < 6; k++ {
 		inner["j"+strconv.Itoa(k)] = float64(r.Intn(1000))
 	}
-	return map[string]any{"users": users, "orders": orders, "vals": vals,
-		"m" + nonce: map[string]any{"a": inner, "b": []any{float64(1), float64(2), float64(3), float64(4)}}}
+	// a table whose rows carry an array (open-ended ranges), and two- / three-dimensional tables (inner dimensions)
+	rr := make([]any, 0)
+	for k := 0; k < r.Range(1, 3); k++ {
+		rr = append(rr, map[string]any{"id": float64(k + 1)})
+	}
+	cell := func(lo, n int) []any {
+		a := make([]any, n)
+		for i := range a {
+			a[i] = map[string]any{"id": float64(lo + i)}
+		}
+		return a
+	}
+	n1, n2 := r.Range(1, 3), r.Range(0, 2)
+	grid := []any{cell(1, n1), cell(n1+1, n2), cell(n1+n2+1, 1)}
+	cube := []any{[]any{cell(1, 2), cell(3, 1)}, []any{}, []any{cell(4, r.Range(1, 2))}}
+	doc := map[string]any{"users": users, "orders": orders, "vals": vals,
+		"m" + nonce: map[string]any{"a": inner, "b": []any{float64(1), float64(2), float64(3), float64(4)}},
+		"rr" + nonce: rr, "grid" + nonce: grid, "cube" + nonce: cube}
+	c13Ragged(doc, nonce, r.Range(0, 6))
+	return doc
 }
 
 // c13Jobs: the job list of one goroutine. hot are selector texts issued by every goroutine of the round.
@@ -136,7 +235,11 @@ func c13Jobs(r *Rand, nonce string, g int, n int, hot []c13Job) []c13Job {
 	u := "u" + nonce + "g" + strconv.Itoa(g) // unique per goroutine as well
 	readers := func(i int) c13Job {
 		k := strconv.Itoa(i)
-		switch r.Intn(9) {
+		switch r.Intn(11) {
+		case 9: // open-ended range: `end` is the length of the array at hand (private documents differ in it)
+			return c13Job{Kind: "reader", Text: "r" + nonce + "[(" + strconv.Itoa(r.Intn(3)) + ":end)]", Tag: "reader-fresh-open-range", LenKey: "r" + nonce}
+		case 10:
+			return c13Job{Kind: "reader", Text: "r" + nonce + Pick(r, []string{"[(begin:end)]", "[keep=>(begin:end)]", "[(begin:end)][0]"}), Tag: "reader-fresh-open-range", LenKey: "r" + nonce}
 		case 0:
 			return c13Job{Kind: "reader", Text: "m" + nonce + ".a.j" + strconv.Itoa(r.Intn(6)), Tag: "reader-cached-round"}
 		case 1:
@@ -160,7 +263,16 @@ func c13Jobs(r *Rand, nonce string, g int, n int, hot []c13Job) []c13Job {
 	queries := func(i int) c13Job {
 		al := "c" + u + "i" + strconv.Itoa(i) // fresh alias: fresh column selector text inside the engine
 		f := "f" + nonce
-		switch r.Intn(19) {
+		switch r.Intn(22) {
+		case 19: // an open-ended range in a column selector; every xs of the document has the length of r<nonce>
+			return c13Job{Kind: "query", Ordered: true, Tag: "q-open-range", LenKey: "r" + nonce,
+				Text: "SELECT id, `xs[(" + strconv.Itoa(r.Intn(3)) + ":end)]` AS " + al + " FROM rr" + nonce}
+		case 20, 21: // SPINASYNC with nothing else deferred in the select list, over flat / two- / three-dimensional tables
+			src := Pick(r, []string{"rr", "grid", "grid", "cube"}) + nonce
+			extra := Pick(r, []string{"", "", ", ONCE.C13ECHO('k') AS o", ", ASYNC.C13ECHO(id) AS a2", ", SPINASYNC.C13SINK(id)"})
+			where := Pick(r, []string{"", "", " WHERE (id > 1)"})
+			return c13Job{Kind: "query", Tag: "q-spinasync-dims", Marks: true,
+				Text: "SELECT id AS " + al + ", SPINASYNC.C13MARK($TOK, id)" + extra + " FROM " + src + where}
 		case 0:
 			return c13Job{Kind: "query", Tag: "q-filter", Text: "SELECT id, name AS " + al + " FROM users WHERE ((age > " + strconv.Itoa(r.Range(18, 50)) + ") AND (name LIKE '" + Pick(r, []string{"a%", "%e", "b__", "%"}) + "'))"}
 		case 1:
@@ -255,13 +367,34 @@ func c13Run(j c13Job, doc map[string]any) (out string) {
 		if j.Vars {
 			opts = append(opts, genql.WithVars(map[string]any{"seed": float64(7)}))
 		}
-		q, err := genql.New(doc, j.Text, opts...)
+		text := j.Text
+		var marks *c13MarkRec
+		if j.Marks {
+			tok := float64(c13MarkTok.Add(1))
+			marks = &c13MarkRec{}
+			c13Marks.Store(tok, marks)
+			defer c13Marks.Delete(tok)
+			text = strings.ReplaceAll(text, "$TOK", strconv.FormatFloat(tok, 'f', -1, 64))
+		}
+		q, err := genql.New(doc, text, opts...)
 		if err != nil {
 			return "error"
 		}
 		rows, err := q.Exec()
 		if err != nil {
 			return "error"
+		}
+		if marks != nil {
+			// Exec has returned: the tally is read without the lock
+			done, want := marks.n, c13Leaves(rows)
+			if j.Want > 0 {
+				want = j.Want
+			}
+			if done != want {
+				c13UnfinishedMu.Lock()
+				c13Unfinished = append(c13Unfinished, fmt.Sprintf("%s: %d of %d SPINASYNC calls had completed when Exec returned", text, done, want))
+				c13UnfinishedMu.Unlock()
+			}
 		}
 		return c13Canon("ok", rows, j.Ordered)
 	}
@@ -371,6 +504,147 @@ func c13Stress(tier string, seed uint64, out string) {
 		}
 		sum.Kinds["selector-flood"] += 70000
 	}
+	// the first evaluations of one selector text with an open-ended range happen at the same moment on separate
+	// documents whose arrays have different lengths (readers and column selectors of queries), then again one after the
+	// other: each goroutine gets the tail / head of ITS array (expected value computed here by slicing)
+	{
+		lens := []int{3, 6, 2, 9, 4, 7, 5, 8, 1, 0, 11, 6}
+		for j := len(lens) - 1; j > 0; j-- {
+			k := r.Intn(j + 1)
+			lens[j], lens[k] = lens[k], lens[j]
+		}
+		k := r.Range(0, 2)
+		key := fmt.Sprintf("o%d", seed)
+		type form struct {
+			text  string
+			query bool
+			want  func(a []any) (any, bool)
+		}
+		tail := func(a []any) (any, bool) {
+			if k > len(a) {
+				return nil, false
+			}
+			return a[k:], true
+		}
+		forms := []form{
+			{key + "[(" + strconv.Itoa(k) + ":end)]", false, tail},
+			{key + "[(begin:end)]", false, func(a []any) (any, bool) { return a, true }},
+			{"SELECT id, `" + key + "x[(" + strconv.Itoa(k) + ":end)]` AS t FROM " + key + "rows", true, tail},
+			{key + "[keep=>(" + strconv.Itoa(k) + ":end)]", false, tail},
+		}
+		var mu sync.Mutex
+		var bad []string
+		for _, f := range forms {
+			for pass := 0; pass < 2; pass++ {
+				var wg sync.WaitGroup
+				gate := make(chan struct{})
+				for g, n := range lens {
+					arr := make([]any, n)
+					for i := range arr {
+						arr[i] = float64(100*g + i)
+					}
+					doc := map[string]any{key: arr, key + "rows": []any{map[string]any{"id": float64(g), key + "x": arr}}}
+					wg.Add(1)
+					go func(g, n int) {
+						defer wg.Done()
+						if pass == 0 {
+							<-gate
+						}
+						w, ok := f.want(arr)
+						want := "error"
+						if ok {
+							if f.query {
+								want = c13Canon("ok", []any{map[string]any{"id": float64(g), "t": w}}, true)
+							} else {
+								want = c13Canon("ok", w, true)
+							}
+						}
+						kind := "reader"
+						if f.query {
+							kind = "query"
+						}
+						got := c13Run(c13Job{Kind: kind, Text: f.text, Ordered: true, Tag: "open-range-ragged"}, doc)
+						if got != want {
+							mu.Lock()
+							bad = append(bad, fmt.Sprintf("%s on an array of length %d returned %s, alone it is %s", f.text, n, got, want))
+							mu.Unlock()
+						}
+					}(g, n)
+					if pass == 1 {
+						wg.Wait() // second pass: one after the other (cached text)
+					}
+				}
+				close(gate)
+				wg.Wait()
+				sum.Kinds["open-range-ragged"] += len(lens)
+			}
+		}
+		for i, b := range bad {
+			if i < 4 {
+				fmt.Fprintf(os.Stderr, "C13-CROSSTALK: open-ended range on separate documents: %s\n", b)
+			}
+		}
+		if len(bad) > 0 {
+			sum.Mismatches = append(sum.Mismatches, c13Mismatch{Round: -3, Job: c13Job{Kind: "reader", Text: bad[0], Tag: "open-range-ragged"}})
+		}
+	}
+	// the library's own goroutines have finished when Exec returns: SPINASYNC calls of a slow function (0.3 - 3 ms) in
+	// select lists that defer nothing else / a column / ONCE / ASYNC, over flat, two- and three-dimensional tables, as
+	// a derived table, a CTE and a UNION side; four goroutines at a time on separate documents
+	{
+		srcs := []string{"rrsp", "gridsp", "cubesp"}
+		lists := []string{"SPINASYNC.C13MARK($TOK, id, %v)", "id, SPINASYNC.C13MARK($TOK, id, %v)", "id, SPINASYNC.C13MARK($TOK, id, %v), ONCE.C13ECHO('k') AS o",
+			"id, ASYNC.C13ECHO(id) AS a, SPINASYNC.C13MARK($TOK, id, %v)", "id, SPINASYNC.C13MARK($TOK, id, %v), SPINASYNC.C13SINK(id)"}
+		var texts []string
+		wants := map[string]int{}
+		base := c13Doc(r, "sp")
+		for _, src := range srcs {
+			for _, l := range lists {
+				lat := Pick(r, []string{"0.3", "1", "3"})
+				sel := "SELECT " + fmt.Sprintf(l, lat) + " FROM " + src
+				texts = append(texts, sel)
+				var w string
+				switch r.Intn(4) {
+				case 0:
+					w = "SELECT * FROM (" + sel + ") AS d"
+					wants[w] = c13Leaves(base[src])
+				case 1:
+					w = "WITH w AS (" + sel + ") SELECT * FROM w"
+					wants[w] = c13Leaves(base[src])
+				case 2:
+					w = sel + " UNION ALL SELECT id, SPINASYNC.C13MARK($TOK, id, " + lat + ") FROM rrsp"
+					wants[w] = c13Leaves(base[src]) + c13Leaves(base["rrsp"])
+				}
+				if w != "" {
+					texts = append(texts, w)
+				}
+			}
+		}
+		for lo := 0; lo < len(texts); lo += 4 {
+			var wg sync.WaitGroup
+			for i := lo; i < lo+4 && i < len(texts); i++ {
+				wg.Add(1)
+				d := deepCopy(base).(map[string]any)
+				go func(t string) {
+					defer wg.Done()
+					c13Run(c13Job{Kind: "query", Text: t, Tag: "spinasync-dims", Marks: true, Want: wants[t]}, d)
+				}(texts[i])
+			}
+			wg.Wait()
+		}
+		sum.Kinds["spinasync-dims"] += len(texts)
+		c13UnfinishedMu.Lock()
+		for i, u := range c13Unfinished {
+			if i < 4 {
+				fmt.Fprintf(os.Stderr, "C13-UNFINISHED: %s\n", u)
+			}
+		}
+		if len(c13Unfinished) > 0 {
+			sum.Mismatches = append(sum.Mismatches, c13Mismatch{Round: -4, Job: c13Job{Kind: "query", Text: c13Unfinished[0], Tag: "spinasync-dims", Marks: true}})
+		}
+		c13Unfinished = nil
+		c13UnfinishedMu.Unlock()
+	}
 	gs := []int{2, 3, 4, 8, 16, 32}
 	for round := 0; time.Since(start).Seconds() < secs; round++ {
 		G := gs[round%len(gs)]
@@ -381,10 +655,14 @@ func c13Stress(tier string, seed uint64, out string) {
 		hot := c13Jobs(r, nonce, 99, 4, nil)
 		jobs := make([][]c13Job, G)
 		priv := make([]map[string]any, G)
+		privBase := make([]map[string]any, G) // pristine copy of each private document
 		nj := r.Range(6, 14)
 		for g := 0; g < G; g++ {
 			jobs[g] = c13Jobs(r, nonce, g, nj, hot)
-			priv[g] = deepCopy(base).(map[string]any)
+			// separate documents are not equal documents: the arrays that open-ended ranges are taken of differ in length
+			privBase[g] = deepCopy(base).(map[string]any)
+			c13Ragged(privBase[g], nonce, (g*3+round)%8)
+			priv[g] = deepCopy(privBase[g]).(map[string]any)
 		}
 		results := make([][]string, G)
 		var wg sync.WaitGroup
@@ -421,7 +699,16 @@ func c13Stress(tier string, seed uint64, out string) {
 		// alone: every job again, sequentially, on a pristine copy
 		for g := 0; g < G; g++ {
 			for i, j := range jobs[g] {
-				alone := c13Run(j, deepCopy(base).(map[string]any))
+				src := privBase[g]
+				if j.Shared {
+					src = base
+				}
+				aj := j
+				if j.LenKey != "" {
+					arr, _ := src[j.LenKey].([]any)
+					aj.Text = c13Closed(j.Text, len(arr))
+				}
+				alone := c13Run(aj, deepCopy(src).(map[string]any))
 				sum.Jobs++
 				sum.Kinds[j.Tag]++
 				if strings.Contains(j.Tag, "fresh") {
@@ -444,6 +731,15 @@ func c13Stress(tier string, seed uint64, out string) {
 				}
 			}
 		}
+		c13UnfinishedMu.Lock()
+		for _, u := range c13Unfinished {
+			fmt.Fprintf(os.Stderr, "C13-UNFINISHED: round %d: %s\n", round, u)
+			if len(sum.Mismatches) < 10 {
+				sum.Mismatches = append(sum.Mismatches, c13Mismatch{Round: round, Job: c13Job{Kind: "query", Text: u, Tag: "q-spinasync-dims", Marks: true}})
+			}
+		}
+		c13Unfinished = nil
+		c13UnfinishedMu.Unlock()
 		if !reflect.DeepEqual(shared, base) {
 			sum.SharedDirty++
 			fmt.Fprintf(os.Stderr, "C13-SHARED-MODIFIED: round %d: the shared document differs from its pristine copy after the round\n", round)
@@ -1312,7 +1608,7 @@ func (propC13) InputType() string      { return "C13Run.c13_in" }
 func (propC13) ObsType() string        { return "(list C09Run.outcome)" }
 func (propC13) Exhaustive(string) bool { return false }
 func (propC13) Rule() string {
-	return "1-2 small JSON documents; 2-6 ExecReader calls (thread i = call i) whose selector texts are drawn from ~12 templates over the document (keys, indexes, ranges, each, pipes, `::`, missing keys, out-of-range indexes, malformed brackets = the parse-error path) with repeats, so that later calls hit the entry an earlier call stored; a random schedule over the thread ids (any length up to 9 steps per thread, the model completes the rest). The real calls are issued one after the other in the order of first appearance in the schedule; the model runs the N-thread lock/cache machine under the schedule. non-trivial = at least one repeated selector text and at least one successful call"
+	return "1-2 small JSON documents; 2-6 ExecReader calls (thread i = call i) whose selector texts are drawn from ~12 templates over the document (keys, indexes, ranges, each, pipes, `::`, missing keys, out-of-range indexes, malformed brackets = the parse-error path) with repeats, so that later calls hit the entry an earlier call stored; a random schedule over the thread ids (any length up to 9 steps per thread, the model completes the rest). The real calls are issued one after the other in the order of first appearance in the schedule; the model runs the N-thread lock/cache machine under the schedule. non-trivial = at least one repeated selector text and at least one successful call; plus an open-range stream (a quarter as many cases): one text with an open-ended range (k:end) / (begin:k) / (begin:end), also under keep=>, `::`, a key after it or a pipe, issued on 2-4 documents whose arrays have pairwise different lengths (0-7), in any order and again after the others"
 }
 
 func c13SmallDoc(r *Rand) any {
@@ -1341,7 +1637,7 @@ func c13SmallDoc(r *Rand) any {
 	return map[string]any{"a": map[string]any{"b": sc(), "c": c}, "l": l, "s": sc()}
 }
 
-var c13SelTemplates = []string{"a.b", "a.c[0]", "a.c[(0:2)]", "a.c[(1:)]", "l[each].k", "l{k}", "l[1].m", "a::b", "a.c::[0]", "zz.q", "a.c[9]", "l[1:x]", "s", "a.c[keep=>0]", "l[(0:1)].k", "'a'.'b'"}
+var c13SelTemplates = []string{"a.b", "a.c[0]", "a.c[(0:2)]", "a.c[(1:)]", "a.c[(1:end)]", "a.c[(begin:end)]", "a.c[(begin:2)]", "l[(0:end)].k", "l[each].k", "l{k}", "l[1].m", "a::b", "a.c::[0]", "zz.q", "a.c[9]", "l[1:x]", "s", "a.c[keep=>0]", "l[(0:1)].k", "'a'.'b'"}
 
 func (propC13) Generate(r *Rand, tier string) []Case {
 	n := 600
@@ -1383,6 +1679,65 @@ func (propC13) Generate(r *Rand, tier string) []Case {
 			tags = append(tags, "sched:long")
 		}
 		out = append(out, Case{Input: c13In{Docs: docs, Calls: calls, Sched: sched}, Tags: tags, Nontrivial: repeated})
+	}
+	out = append(out, c13GenOpenRanges(r, n/4)...)
+	return out
+}
+
+// c13GenOpenRanges: the SAME selector text with an open-ended range (`(k:end)`, `(begin:k)`, `(begin:end)`: the bound is
+// whatever the array at hand has) is evaluated on 2-4 documents whose arrays have pairwise DIFFERENT lengths, in both
+// orders (short array first / long array first) and again after other texts: a parsed selector lives in the
+// process-wide cache, so nothing learnt from one document may stick to it. Every call must return what it returns alone.
+func c13GenOpenRanges(r *Rand, n int) []Case {
+	var out []Case
+	for i := 0; i < n; i++ {
+		nd := r.Range(2, 4)
+		lens := []int{0, 1, 2, 3, 4, 5, 6, 7}
+		for j := len(lens) - 1; j > 0; j-- { // shuffle: pairwise different lengths, any order
+			k := r.Intn(j + 1)
+			lens[j], lens[k] = lens[k], lens[j]
+		}
+		var docs []any
+		for d := 0; d < nd; d++ {
+			doc := c13SmallDoc(r).(map[string]any)
+			c := make([]any, lens[d])
+			for j := range c {
+				c[j] = float64(10*d + j)
+			}
+			doc["a"].(map[string]any)["c"] = c
+			l := make([]any, lens[(d+3)%len(lens)]%5)
+			for j := range l {
+				l[j] = map[string]any{"k": float64(100*d + j), "m": Pick(r, []string{"x", "y"})}
+			}
+			doc["l"] = l
+			docs = append(docs, doc)
+		}
+		k := strconv.Itoa(r.Intn(4))
+		texts := []string{
+			"a.c[(" + k + ":end)]", "a.c[(begin:end)]", "a.c[(begin:" + k + ")]", "l[(" + strconv.Itoa(r.Intn(2)) + ":end)].k",
+			"l[(begin:end)].m", "a.c[keep=>(" + k + ":end)]", "a::c[(" + k + ":end)]", "l[(begin:end)]{k}",
+		}
+		nt := r.Range(1, 2)
+		var calls []c13Call
+		for t := 0; t < nt; t++ {
+			text := Pick(r, texts)
+			first := r.Intn(nd)
+			for d := 0; d < nd; d++ { // the same text on every document, starting anywhere
+				calls = append(calls, c13Call{Doc: (first + d) % nd, Sel: text})
+			}
+			if r.Chance(40) { // and once more on the first one, after the others
+				calls = append(calls, c13Call{Doc: first, Sel: text})
+			}
+		}
+		if len(calls) > 9 {
+			calls = calls[:9]
+		}
+		var sched []int
+		for s := 0; s < r.Intn(6*len(calls)+1); s++ {
+			sched = append(sched, r.Intn(len(calls)))
+		}
+		out = append(out, Case{Input: c13In{Docs: docs, Calls: calls, Sched: sched},
+			Tags: []string{"open-range", "calls:" + strconv.Itoa(len(calls)), "docs:" + strconv.Itoa(nd), "repeated-text"}, Nontrivial: true})
 	}
 	return out
 }
